@@ -87,7 +87,34 @@ class NodeReference:
             if fnb is not None:
                 out.add((first.lineno, fnb))
             out.add((first.lineno, 1))
+            # ... and the '@' may stand on an earlier line than the decorator expression
+            # (``@(`` NEWLINE ``lambda f: f)``): look for it backwards over blanks and
+            # opening parentheses
+            at = self._at_sign_before(first.lineno, first.col_offset)
+            if at is not None:
+                out.add(at)
+                out.add((at[0], 1))
         return out
+
+    def _at_sign_before(self, lineno: int, col_offset_bytes: int) -> Optional[Tuple[int, int]]:
+        line = lineno - 1
+        col = _char_col(self.lines, lineno, col_offset_bytes)
+        if col is None:
+            return None
+        index = col - 2  # 0-based index of the character before the expression
+        while line >= 0:
+            text = self.lines[line]
+            while index >= 0:
+                ch = text[index]
+                if ch == "@":
+                    return line + 1, index + 1
+                if ch not in " \t\r\x0c(\\":
+                    return None
+                index -= 1
+            line -= 1
+            if line >= 0:
+                index = len(self.lines[line]) - 1
+        return None
 
     def admissible(self, node: ast.AST) -> Tuple[Set[Tuple[int, int]], str]:
         """Return the admissible (line, column) pairs and how they were derived."""
